@@ -13,6 +13,8 @@ import (
 	blsu "github.com/protolambda/bls12-381-util"
 	"github.com/protolambda/zrnt/eth2/beacon"
 	"github.com/protolambda/zrnt/eth2/beacon/altair"
+	"github.com/protolambda/zrnt/eth2/beacon/bellatrix"
+	"github.com/protolambda/zrnt/eth2/beacon/capella"
 	"github.com/protolambda/zrnt/eth2/beacon/common"
 	"github.com/protolambda/zrnt/eth2/beacon/phase0"
 	"github.com/protolambda/zrnt/eth2/configs"
@@ -162,6 +164,24 @@ type WorldKnobs struct {
 	ShardCommittee   common.Epoch
 	MaxCommitteeSize uint64
 	SyncPeriod       common.Epoch // EPOCHS_PER_SYNC_COMMITTEE_PERIOD (0 = 8)
+	BellatrixEpoch   common.Epoch // 0 = never
+	CapellaEpoch     common.Epoch // 0 = never
+}
+
+// acceptAll: an execution engine that accepts every payload (the gossip validators never look at payloads).
+type acceptAll struct{}
+
+func (acceptAll) BellatrixNotifyNewPayload(ctx context.Context, p *bellatrix.ExecutionPayload) (bool, error) {
+	return true, nil
+}
+func (acceptAll) BellatrixIsValidBlockHash(ctx context.Context, p *bellatrix.ExecutionPayload) (bool, error) {
+	return true, nil
+}
+func (acceptAll) CapellaNotifyNewPayload(ctx context.Context, p *capella.ExecutionPayload) (bool, error) {
+	return true, nil
+}
+func (acceptAll) CapellaIsValidBlockHash(ctx context.Context, p *capella.ExecutionPayload) (bool, error) {
+	return true, nil
 }
 
 func makeSpec(k WorldKnobs) *common.Spec {
@@ -181,6 +201,13 @@ func makeSpec(k WorldKnobs) *common.Spec {
 	far := ^common.Epoch(0)
 	sp.BELLATRIX_FORK_EPOCH = far
 	sp.CAPELLA_FORK_EPOCH = far
+	if k.BellatrixEpoch != 0 {
+		sp.BELLATRIX_FORK_EPOCH = k.BellatrixEpoch
+		sp.ExecutionEngine = acceptAll{}
+	}
+	if k.CapellaEpoch != 0 {
+		sp.CAPELLA_FORK_EPOCH = k.CapellaEpoch
+	}
 	sp.DENEB_FORK_EPOCH = far
 	sp.ELECTRA_FORK_EPOCH = far
 	sp.FULU_FORK_EPOCH = far
@@ -219,6 +246,7 @@ type World struct {
 	NVals   int
 	adv     map[string]*advanced
 	syncOf  map[common.BeaconState][]common.ValidatorIndex
+	fresh   map[common.BeaconState]*common.EpochsContext
 }
 
 type advanced struct {
@@ -278,6 +306,81 @@ func (w *World) Advance(n *Node, slot common.Slot) (common.BeaconState, *common.
 	return ust.BeaconState, epc, nil
 }
 
+// FreshContext: the committees, proposers and shufflings of a state, computed from the STATE ALONE (what a node that has
+// just loaded this state knows). The facts handed to the model are read from here, never from the long-lived
+// EpochsContext objects the validators are served: those are shared between all messages of a run (as in a real node)
+// and a validator that scribbles on them must not be able to rewrite the facts it is judged by.
+func (w *World) FreshContext(st common.BeaconState, live *common.EpochsContext) *common.EpochsContext {
+	if e, ok := w.fresh[st]; ok {
+		return e
+	}
+	if w.fresh == nil {
+		w.fresh = map[common.BeaconState]*common.EpochsContext{}
+	}
+	epc := &common.EpochsContext{Spec: w.Spec, ValidatorPubkeyCache: live.ValidatorPubkeyCache}
+	must(epc.LoadShuffling(st))
+	must(epc.LoadProposers(st))
+	w.fresh[st] = epc
+	return epc
+}
+
+// epcSnapshot: a deep copy of everything of an EpochsContext the gossip validators can read.
+type epcSnapshot struct {
+	names []string
+	lists [][]common.ValidatorIndex
+}
+
+func snapshotEpc(epc *common.EpochsContext) *epcSnapshot {
+	s := &epcSnapshot{}
+	add := func(name string, l []common.ValidatorIndex) {
+		s.names = append(s.names, name)
+		s.lists = append(s.lists, append([]common.ValidatorIndex(nil), l...))
+	}
+	if epc == nil {
+		return s
+	}
+	if epc.Proposers != nil {
+		add(fmt.Sprintf("Proposers(epoch %d)", uint64(epc.Proposers.Epoch)), epc.Proposers.Proposers)
+	}
+	for _, x := range []struct {
+		n  string
+		sh *common.ShufflingEpoch
+	}{{"PreviousEpoch", epc.PreviousEpoch}, {"CurrentEpoch", epc.CurrentEpoch}, {"NextEpoch", epc.NextEpoch}} {
+		if x.sh != nil {
+			add(fmt.Sprintf("%s(%d).ActiveIndices", x.n, uint64(x.sh.Epoch)), x.sh.ActiveIndices)
+			add(fmt.Sprintf("%s(%d).Shuffling", x.n, uint64(x.sh.Epoch)), x.sh.Shuffling)
+			for si, slotComms := range x.sh.Committees {
+				for ci, c := range slotComms {
+					add(fmt.Sprintf("%s(%d).Committees[%d][%d]", x.n, uint64(x.sh.Epoch), si, ci), c)
+				}
+			}
+		}
+	}
+	if epc.CurrentSyncCommittee != nil {
+		add("CurrentSyncCommittee.Indices", epc.CurrentSyncCommittee.Indices)
+	}
+	if epc.NextSyncCommittee != nil {
+		add("NextSyncCommittee.Indices", epc.NextSyncCommittee.Indices)
+	}
+	return s
+}
+
+// diff: "" when equal, else the first difference.
+func (a *epcSnapshot) diff(b *epcSnapshot) string {
+	if len(a.names) != len(b.names) {
+		return fmt.Sprintf("context has %d lists, had %d", len(b.names), len(a.names))
+	}
+	for i := range a.names {
+		if a.names[i] != b.names[i] {
+			return fmt.Sprintf("%s became %s", a.names[i], b.names[i])
+		}
+		if fmt.Sprint(a.lists[i]) != fmt.Sprint(b.lists[i]) {
+			return fmt.Sprintf("%s changed from %v to %v", a.names[i], a.lists[i], b.lists[i])
+		}
+	}
+	return ""
+}
+
 // SyncCommitteeOf: the validator indices of state.current_sync_committee, read from the STATE itself (pubkeys looked up
 // in the state's registry), not from the EpochsContext cache: "compute_subnets_for_sync_committee(state, ...)" of the
 // p2p text. nil for a state without sync committees (phase0).
@@ -324,23 +427,60 @@ func (w *World) SyncCommitteeOf(st common.BeaconState) []common.ValidatorIndex {
 	return out
 }
 
-func isAltair(st common.BeaconState) bool {
-	_, ok := st.(*altair.BeaconStateView)
-	return ok
-}
-
-func (w *World) ForkVersionAt(slot common.Slot) common.Version {
-	if w.Spec.SlotToEpoch(slot) < w.Spec.ALTAIR_FORK_EPOCH {
-		return w.Spec.GENESIS_FORK_VERSION
+// StateDomainAt: get_domain(state, typ, epoch) for a state at `stateSlot`, from the world's own fork schedule:
+// state.fork = (version before the one in force, version in force at the state's epoch, activation epoch of the latter).
+func (w *World) StateDomainAt(stateSlot common.Slot, typ common.BLSDomainType, epoch common.Epoch) common.BLSDomain {
+	sp := w.Spec
+	x := sp.SlotToEpoch(stateSlot)
+	cur := w.VersionAtEpoch(x)
+	prev, act := sp.GENESIS_FORK_VERSION, common.Epoch(0)
+	switch {
+	case x < sp.ALTAIR_FORK_EPOCH:
+	case x < sp.BELLATRIX_FORK_EPOCH:
+		prev, act = sp.GENESIS_FORK_VERSION, sp.ALTAIR_FORK_EPOCH
+	case x < sp.CAPELLA_FORK_EPOCH:
+		prev, act = sp.ALTAIR_FORK_VERSION, sp.BELLATRIX_FORK_EPOCH
+	default:
+		prev, act = sp.BELLATRIX_FORK_VERSION, sp.CAPELLA_FORK_EPOCH
 	}
-	return w.Spec.ALTAIR_FORK_VERSION
-}
-func (w *World) DomainAt(typ common.BLSDomainType, epoch common.Epoch) common.BLSDomain {
-	v := w.Spec.GENESIS_FORK_VERSION
-	if epoch >= w.Spec.ALTAIR_FORK_EPOCH {
-		v = w.Spec.ALTAIR_FORK_VERSION
+	v := cur
+	if epoch < act {
+		v = prev
 	}
 	return common.ComputeDomain(typ, v, w.GVR)
+}
+
+// ForkVersionAt: the fork version in force at a slot, from the world's own fork schedule.
+func (w *World) ForkVersionAt(slot common.Slot) common.Version {
+	return w.VersionAtEpoch(w.Spec.SlotToEpoch(slot))
+}
+func (w *World) VersionAtEpoch(epoch common.Epoch) common.Version {
+	sp := w.Spec
+	switch {
+	case epoch < sp.ALTAIR_FORK_EPOCH:
+		return sp.GENESIS_FORK_VERSION
+	case epoch < sp.BELLATRIX_FORK_EPOCH:
+		return sp.ALTAIR_FORK_VERSION
+	case epoch < sp.CAPELLA_FORK_EPOCH:
+		return sp.BELLATRIX_FORK_VERSION
+	}
+	return sp.CAPELLA_FORK_VERSION
+}
+
+// DomainAt: the domain of type typ under the fork version in force at `epoch`.
+func (w *World) DomainAt(typ common.BLSDomainType, epoch common.Epoch) common.BLSDomain {
+	return common.ComputeDomain(typ, w.VersionAtEpoch(epoch), w.GVR)
+}
+
+// AdjacentForkEpoch: an epoch next to `epoch` (the one before it, else the one after it) under another fork version.
+func (w *World) AdjacentForkEpoch(epoch common.Epoch) (common.Epoch, bool) {
+	if epoch > 0 && w.VersionAtEpoch(epoch-1) != w.VersionAtEpoch(epoch) {
+		return epoch - 1, true
+	}
+	if w.VersionAtEpoch(epoch+1) != w.VersionAtEpoch(epoch) {
+		return epoch + 1, true
+	}
+	return 0, false
 }
 func (w *World) DigestAt(slot common.Slot) common.ForkDigest {
 	return common.ComputeForkDigest(w.ForkVersionAt(slot), w.GVR)
@@ -367,16 +507,53 @@ func (w *World) AddBlock(name string, parent *Node, slot common.Slot, ops BlockO
 
 	var mkEnv func(stateRoot common.Root, sig common.BLSSignature) *common.BeaconBlockEnvelope
 	digest := w.DigestAt(slot)
-	if isAltair(st) {
+	emptySync := func() altair.SyncAggregate {
+		return altair.SyncAggregate{SyncCommitteeBits: make(altair.SyncCommitteeBits, (w.Spec.SYNC_COMMITTEE_SIZE+7)/8), SyncCommitteeSignature: infinitySig()}
+	}
+	switch st.(type) {
+	case *capella.BeaconStateView:
+		// an (empty) payload on the never-merged execution chain: parent hash = the latest header's block hash (zero)
+		mixes, err := st.RandaoMixes()
+		must(err)
+		mix, err := mixes.GetRandomMix(epoch)
+		must(err)
+		gt, err := st.GenesisTime()
+		must(err)
+		ts, err := w.Spec.TimeAtSlot(slot, gt)
+		must(err)
+		lh, err := st.(*capella.BeaconStateView).LatestExecutionPayloadHeader()
+		must(err)
+		lhr, err := lh.Raw()
+		must(err)
+		payload := capella.ExecutionPayload{ParentHash: lhr.BlockHash, PrevRandao: mix, Timestamp: ts, BlockHash: common.Root{0xec, byte(slot), ops.Graffiti}}
+		mkEnv = func(stateRoot common.Root, sig common.BLSSignature) *common.BeaconBlockEnvelope {
+			b := &capella.SignedBeaconBlock{Message: capella.BeaconBlock{Slot: slot, ProposerIndex: proposer, ParentRoot: parent.Root, StateRoot: stateRoot,
+				Body: capella.BeaconBlockBody{RandaoReveal: randao, Eth1Data: e1, Graffiti: graffiti,
+					ProposerSlashings: ops.ProposerSlashings, AttesterSlashings: ops.AttesterSlashings, VoluntaryExits: ops.Exits,
+					SyncAggregate: emptySync(), ExecutionPayload: payload}},
+				Signature: sig}
+			return b.Envelope(w.Spec, digest)
+		}
+	case *bellatrix.BeaconStateView:
+		// before the merge: the default payload (execution is not enabled)
+		mkEnv = func(stateRoot common.Root, sig common.BLSSignature) *common.BeaconBlockEnvelope {
+			b := &bellatrix.SignedBeaconBlock{Message: bellatrix.BeaconBlock{Slot: slot, ProposerIndex: proposer, ParentRoot: parent.Root, StateRoot: stateRoot,
+				Body: bellatrix.BeaconBlockBody{RandaoReveal: randao, Eth1Data: e1, Graffiti: graffiti,
+					ProposerSlashings: ops.ProposerSlashings, AttesterSlashings: ops.AttesterSlashings, VoluntaryExits: ops.Exits,
+					SyncAggregate: emptySync()}},
+				Signature: sig}
+			return b.Envelope(w.Spec, digest)
+		}
+	case *altair.BeaconStateView:
 		mkEnv = func(stateRoot common.Root, sig common.BLSSignature) *common.BeaconBlockEnvelope {
 			b := &altair.SignedBeaconBlock{Message: altair.BeaconBlock{Slot: slot, ProposerIndex: proposer, ParentRoot: parent.Root, StateRoot: stateRoot,
 				Body: altair.BeaconBlockBody{RandaoReveal: randao, Eth1Data: e1, Graffiti: graffiti,
 					ProposerSlashings: ops.ProposerSlashings, AttesterSlashings: ops.AttesterSlashings, VoluntaryExits: ops.Exits,
-					SyncAggregate: altair.SyncAggregate{SyncCommitteeBits: make(altair.SyncCommitteeBits, (w.Spec.SYNC_COMMITTEE_SIZE+7)/8), SyncCommitteeSignature: infinitySig()}}},
+					SyncAggregate: emptySync()}},
 				Signature: sig}
 			return b.Envelope(w.Spec, digest)
 		}
-	} else {
+	default:
 		mkEnv = func(stateRoot common.Root, sig common.BLSSignature) *common.BeaconBlockEnvelope {
 			b := &phase0.SignedBeaconBlock{Message: phase0.BeaconBlock{Slot: slot, ProposerIndex: proposer, ParentRoot: parent.Root, StateRoot: stateRoot,
 				Body: phase0.BeaconBlockBody{RandaoReveal: randao, Eth1Data: e1, Graffiti: graffiti,
